@@ -128,7 +128,8 @@ Print Assumptions C01_class_side_conditions.
 (* ... and c.rs generate_hash_key, transcribed by the translator, hands ALL of that to the key functions: nothing is
    filtered out of the argument vectors after parsing (reviewed list [DroppedFromKey], empty), the result key's vector
    holds the whole common and arch lists, the preprocessor-level key's also the preprocessor list, both hold the
-   output path for profile / coverage builds, the environment reaches both key functions unabridged (or abridged to a
+   output path for profile / coverage builds, the preprocessor-level key's also the working directory (pushed when
+   hash_working_directory = true, the documented default; with the option off finding-class S38 is accepted by the user), the environment reaches both key functions unabridged (or abridged to a
    superset of both allow-lists), and the reference time of the "include is too new" guard is taken before the
    preprocessor runs. *)
 Theorem C01_hash_key_side_conditions :
@@ -138,6 +139,7 @@ Theorem C01_hash_key_side_conditions :
   has_whole_list pp_key_args DCommon = true /\
   existsb (fun c => match c with KProfileOutput => true | _ => false end) main_key_args = true /\
   existsb (fun c => match c with KProfileOutput => true | _ => false end) pp_key_args = true /\
+  existsb (fun c => match c with KCwd => true | _ => false end) pp_key_args = true /\
   match env_prefilter with
   | None => true
   | Some l => subset_b (main_key_env ++ pp_key_env) l
